@@ -20,8 +20,10 @@
     notify  = registry.notify_subscribers    (every subscriber that has a queue gets the event)
   The preparer is an oracle that reads the cache for its dependencies: `seen` records the
   generation of every resource at the moment of (re)preparation (ghost), `gen` is bumped by every
-  (re)preparation and every delete (ghost).  The declared dependencies are a function of the spec,
-  so a re-preparation from the cached spec declares the same ones.
+  (re)preparation and every delete (ghost).  What a preparation DECLARES as its dependencies is
+  `decl spec cached`: a function of the spec and of which resources are cached at that moment (the
+  real FunctionTest preparer watches its ResourceTemplate only once the function under test is
+  cached), so a re-preparation from the cached spec may declare other dependencies than the last.
   Times are a logical clock that increases at every read (the harness installs such a clock).
 
   The model is of the REPAIRED delete/done-callback protocol (fix F3): a delete forgets the
@@ -30,13 +32,16 @@
 -/
 namespace Koreo.HotReload
 
-variable {R : Type} [DecidableEq R]
+variable {R : Type} [DecidableEq R] {Spec : Type}
 
 /-- point update of a function -/
 def upd {α : Type} (f : R → α) (a : R) (b : α) : R → α := fun x => if x = a then b else f x
 
-structure Entry (R : Type) where
+structure Entry (R Spec : Type) where
   version : Nat
+  /-- the spec as offered (opaque); re-preparations run the preparer on it again -/
+  spec : Spec
+  /-- what the last (re)preparation declared -/
   deps : List R
   /-- generation of every resource when this entry was (re)prepared (what the preparer read) -/
   seen : R → Nat
@@ -47,8 +52,8 @@ inductive Mon where
   | waiting   -- blocked in (or about to return from) `queue.get()`
   deriving DecidableEq, Repr
 
-structure State (R : Type) where
-  cache : R → Option (Entry R)
+structure State (R Spec : Type) where
+  cache : R → Option (Entry R Spec)
   gen : R → Nat
   /-- registry: who `r` watches (the inverse view is derived) -/
   subs : R → List R
@@ -58,41 +63,47 @@ structure State (R : Type) where
   prepT : R → Nat
   clock : Nat
 
-def init : State R :=
+def init : State R Spec :=
   { cache := fun _ => none, gen := fun _ => 0, subs := fun _ => [], queue := fun _ => none,
     mon := fun _ => .none, prepT := fun _ => 0, clock := 0 }
 
 /-- `registry.notify_subscribers(d, t)`: every `x` that watches `d` and has a queue gets the event -/
-def notify (s : State R) (d : R) (t : Nat) : State R :=
+def notify (s : State R Spec) (d : R) (t : Nat) : State R Spec :=
   { s with queue := fun x => if d ∈ s.subs x then (s.queue x).map (t :: ·) else s.queue x }
 
-def tick (s : State R) : State R := { s with clock := s.clock + 1 }
+def tick (s : State R Spec) : State R Spec := { s with clock := s.clock + 1 }
 
 /-- `registry.register(r)`: create the queue if there is none and tell `r`'s watchers -/
-def register (s : State R) (r : R) : State R :=
+def register (s : State R Spec) (r : R) : State R Spec :=
   match s.queue r with
   | some _ => s
   | none => notify (tick { s with queue := upd s.queue r (some []) }) r s.clock
 
 /-- `_handle_notifications` -/
-def handleNotifications (s : State R) (r : R) (deps : List R) (t0 tf : Nat) (withPreparer : Bool) :
-    State R :=
+def handleNotifications (s : State R Spec) (r : R) (deps : List R) (t0 tf : Nat) (withPreparer : Bool) :
+    State R Spec :=
   let s1 := notify { s with prepT := upd s.prepT r t0, subs := upd s.subs r deps } r tf
   if withPreparer ∧ deps ≠ [] ∧ s1.mon r = .none then { s1 with mon := upd s1.mon r .starting } else s1
 
+/-- which resources are cached (what a preparer can find out by looking them up) -/
+def cachedB (s : State R Spec) : R → Bool := fun x => (s.cache x).isSome
+
 /-- the part of `prepare_and_cache` after the version short-circuit -/
-def offerNew (s : State R) (r : R) (v : Nat) (deps : List R) : State R :=
+def offerNew (decl : Spec → (R → Bool) → List R) (s : State R Spec) (r : R) (v : Nat) (spec : Spec) :
+    State R Spec :=
   let t0 := s.clock
   let s1 := register (tick s) r
-  let e : Entry R := { version := v, deps := deps, seen := s1.gen }
+  let deps := decl spec (cachedB s1)
+  let e : Entry R Spec := { version := v, spec := spec, deps := deps, seen := s1.gen }
   let s2 := { s1 with cache := upd s1.cache r (some e), gen := upd s1.gen r (s1.gen r + 1) }
   handleNotifications (tick s2) r deps t0 s2.clock true
 
 /-- `cache.prepare_and_cache` -/
-def offer (s : State R) (r : R) (v : Nat) (deps : List R) : State R :=
+def offer (decl : Spec → (R → Bool) → List R) (s : State R Spec) (r : R) (v : Nat) (spec : Spec) :
+    State R Spec :=
   match s.cache r with
-  | some e => if e.version = v then s else offerNew s r v deps
-  | none => offerNew s r v deps
+  | some e => if e.version = v then s else offerNew decl s r v spec
+  | none => offerNew decl s r v spec
 
 /-- `if version and version != cached.resource_version` -/
 def staleVersion (ver : Option Nat) (v : Nat) : Bool :=
@@ -101,7 +112,7 @@ def staleVersion (ver : Option Nat) (v : Nat) : Bool :=
   | none => false
 
 /-- `cache.delete_from_cache(r, version)`; `ver = none` is "no (or empty) version given" -/
-def delete (s : State R) (r : R) (ver : Option Nat) : State R :=
+def delete (s : State R Spec) (r : R) (ver : Option Nat) : State R Spec :=
   match s.cache r with
   | none => s
   | some e =>
@@ -112,57 +123,74 @@ def delete (s : State R) (r : R) (ver : Option Nat) : State R :=
                        subs := upd s1.subs r [], queue := upd s1.queue r none,
                        mon := upd s1.mon r .none } r s.clock
 
-/-- `_reprepare_and_update_cache` -/
-def reprepare (s : State R) (r : R) : State R :=
+/-- `_reprepare_and_update_cache`: the preparer runs again on the cached spec -/
+def reprepare (decl : Spec → (R → Bool) → List R) (s : State R Spec) (r : R) : State R Spec :=
   match s.cache r with
   | none => s
   | some e =>
     let t0 := s.clock
     let s1 := tick s
-    let e' : Entry R := { e with seen := s1.gen }
+    let deps := decl e.spec (cachedB s1)
+    let e' : Entry R Spec := { version := e.version, spec := e.spec, deps := deps, seen := s1.gen }
     let s2 := { s1 with cache := upd s1.cache r (some e'), gen := upd s1.gen r (s1.gen r + 1) }
-    handleNotifications (tick s2) r e.deps t0 s2.clock false
+    handleNotifications (tick s2) r deps t0 s2.clock false
 
 /-- the monitor pops events newest first; one not newer than the own prepare start is dropped -/
-def drain (s : State R) (r : R) : List Nat → State R
+def drain (decl : Spec → (R → Bool) → List R) (s : State R Spec) (r : R) : List Nat → State R Spec
   | [] => s
-  | t :: rest => if t ≤ s.prepT r then drain s r rest else drain (reprepare s r) r rest
+  | t :: rest =>
+    if t ≤ s.prepT r then drain decl s r rest else drain decl (reprepare decl s r) r rest
 
-def runDrain (s : State R) (r : R) : State R :=
+def runDrain (decl : Spec → (R → Bool) → List R) (s : State R Spec) (r : R) : State R Spec :=
   match s.queue r with
   | none => s
-  | some q => drain { s with queue := upd s.queue r (some []) } r q
+  | some q => drain decl { s with queue := upd s.queue r (some []) } r q
 
 /-- one scheduling of `r`'s monitor task -/
-def bg (s : State R) (r : R) : State R :=
+def bg (decl : Spec → (R → Bool) → List R) (s : State R Spec) (r : R) : State R Spec :=
   match s.mon r with
   | .none => s
-  | .starting => runDrain (let s1 := register s r; { s1 with mon := upd s1.mon r .waiting }) r
-  | .waiting => runDrain s r
+  | .starting => runDrain decl (let s1 := register s r; { s1 with mon := upd s1.mon r .waiting }) r
+  | .waiting => runDrain decl s r
 
-inductive Action (R : Type) where
-  | offer (r : R) (v : Nat) (deps : List R)
+inductive Action (R Spec : Type) where
+  | offer (r : R) (v : Nat) (spec : Spec)
   | delete (r : R) (ver : Option Nat)
   | bg (r : R)
 
-def step (s : State R) : Action R → State R
-  | .offer r v deps => offer s r v deps
+def step (decl : Spec → (R → Bool) → List R) (s : State R Spec) : Action R Spec → State R Spec
+  | .offer r v spec => offer decl s r v spec
   | .delete r ver => delete s r ver
-  | .bg r => bg s r
+  | .bg r => bg decl s r
 
-def run (s : State R) (acts : List (Action R)) : State R := acts.foldl step s
+def run (decl : Spec → (R → Bool) → List R) (s : State R Spec) (acts : List (Action R Spec)) :
+    State R Spec := acts.foldl (step decl) s
 
 /-- nothing left to do for any monitor: none is about to start and every waiting one has an empty queue -/
-def Idle (s : State R) : Prop :=
+def Idle (s : State R Spec) : Prop :=
   ∀ r, s.mon r ≠ .starting ∧ (s.mon r = .waiting → s.queue r = some [])
 
 /-- every cached entry was built from the current generation of everything it depends on -/
-def Coherent (s : State R) : Prop :=
+def Coherent (s : State R Spec) : Prop :=
   ∀ r e, s.cache r = some e → ∀ d ∈ e.deps, e.seen d = s.gen d
 
-/-- the declared dependencies respect a rank (i.e. they are acyclic, and nothing depends on itself) -/
-def Ranked (rank : R → Nat) : Action R → Prop
-  | .offer r _ deps => ∀ d ∈ deps, rank d < rank r
+/-- whatever a spec may make its preparer declare respects the rank (i.e. the declared
+    dependencies are acyclic, and nothing depends on itself) -/
+def SpecRanked (decl : Spec → (R → Bool) → List R) (rank : R → Nat) (r : R) (spec : Spec) : Prop :=
+  ∀ c, ∀ d ∈ decl spec c, rank d < rank r
+
+def Ranked (decl : Spec → (R → Bool) → List R) (rank : R → Nat) : Action R Spec → Prop
+  | .offer r _ spec => SpecRanked decl rank r spec
   | _ => True
+
+/-- A concrete family of preparers (the one the correspondence harness installs): static
+    dependencies, plus dependencies that are declared only while some other resource is cached. -/
+structure CondSpec (R : Type) where
+  static : List R
+  /-- `(c, d)`: `d` is declared iff `c` is cached at the moment of (re)preparation -/
+  cond : List (R × R)
+
+def condDecl (sp : CondSpec R) (c : R → Bool) : List R :=
+  sp.static ++ (sp.cond.filter (fun p => c p.1)).map (·.2)
 
 end Koreo.HotReload
